@@ -18,19 +18,27 @@ from common import L, LEAN, ModelRaise, exc_kind
 
 RULE = ("exhaustive: every entry of platonic(5), archimedean(13), catalan(13), johnson(92), prism_antiprism(16), "
         "pyramid_dipyramid(6) and of the DOI 10.1126/science.1220869 repository (145), each through names, iter and "
-        "get_shape; plus unknown names / DOIs (fixed probes + random strings). distinct = distinct (table, entry); "
-        "non-trivial = entry with >= 4 vertices")
+        "get_shape; histories (all families iterated, then every family asked for every name of every other family; user "
+        "tables reusing shipped names; every name asked twice with the first result mutated; random histories); unknown "
+        "names / DOIs (fixed probes incl. strings containing a known DOI + random strings). distinct = distinct (table, "
+        "entry) or history; non-trivial = entry with >= 4 vertices")
 ASSUMPTIONS = [
     "tolerances are part of the statements: plane distances <= 1e-9, |volume-1| <= 1e-9, squared lengths / squared "
     "in-radius equal within 2e-9 relative (the JSON holds 16-17 digit decimals)",
-    "textbook (V,E,F) and face census of the 5+13+13 solids and (V,E,F) of the 92 Johnson solids by number are entered "
-    "by hand (Spec/Textbook.lean and TEXTBOOK/JOHNSON below, two separately typed copies compared with each other by "
-    "the driver op c18.textbook); the Johnson counts go beyond the literal clauses of the property (DESIGN §7 C18 S)",
+    "textbook (V,E,F) and face census of the 5+13+13 solids, of the 92 Johnson solids by number (with Johnson's names), "
+    "of the 16 prisms/antiprisms, 6 pyramids/dipyramids and of the 7 repository solids outside the families are entered "
+    "by hand twice (Spec/Textbook.lean and the tables below; compared row by row through the driver op c18.textbook); "
+    "the Johnson / prism / pyramid / repository rows go beyond the literal clauses of the property (its title; DESIGN "
+    "§7 C18 S)",
     "the Lean table theorems are about the JSON decimals (exact at scale 10^18) with the face lists the implementation "
     "produced in the generating run as a certificate; that get_shape(name) returns exactly those vertices is checked "
     "by the oracle on every run",
     "regular face = planar convex polygon with equal sides and equal short diagonals; insphere = all face planes at one "
     "distance from the centroid of the solid",
+    "a DOI is an opaque key: only the exact keys of _DOI_TO_FILE/_DOI_TO_FAMILY are known; strings that contain one "
+    "(other case, white space, doi:/URL prefixes, suffixes) are unknown and must raise KeyError",
+    "the repository solids O15-O20 are stored with six significant digits (faces planar to ~1e-6 only, split by the "
+    "hull): for the seven 'other solids' the oracle merges faces coplanar within 1e-4 before comparing with the row",
 ]
 
 SCALE = 10 ** 18
@@ -51,7 +59,8 @@ REGULAR = ("platonic", "archimedean", "johnson")   # equal edges + regular faces
 UNITVOL = ("platonic", "archimedean", "catalan")   # textbook counts + unit volume
 PREDICATE = {
     "platonic": "Tab.platonicOk", "archimedean": "Tab.archimedeanOk", "catalan": "Tab.catalanOk",
-    "johnson": "Tab.johnsonOk", "prismAntiprism": "Tab.plainOk", "pyramidDipyramid": "Tab.plainOk",
+    "johnson": "Tab.johnsonOk", "prismAntiprism": "Tab.prismAntiprismOk",
+    "pyramidDipyramid": "Tab.pyramidDipyramidOk",
     "science1220869": "Tab.repositoryOk Tables.bySource",
 }
 CHUNK = 30            # at most this many entries per generated Lean file
@@ -118,6 +127,98 @@ JOHNSON = {
     "J86": (10, 22, 14), "J87": (11, 26, 17), "J88": (12, 28, 18), "J89": (14, 33, 21), "J90": (16, 38, 24),
     "J91": (14, 26, 14), "J92": (18, 36, 20),
 }
+
+# face census of the Johnson solids by number, typed separately from Spec/Textbook.lean as the vector
+# (triangles, squares, pentagons, hexagons, octagons, decagons); trailing zeros omitted
+_JOHNSON_CENSUS = """
+1:4,1 2:5,0,1 3:4,3,0,1 4:4,5,0,0,1 5:5,5,1,0,0,1 6:10,0,6,0,0,1 7:4,3 8:4,5 9:5,5,1 10:12,1 11:15,0,1 12:6 13:10
+14:6,3 15:8,4 16:10,5 17:16 18:4,9,0,1 19:4,13,0,0,1 20:5,15,1,0,0,1 21:10,10,6,0,0,1 22:16,3,0,1 23:20,5,0,0,1
+24:25,5,1,0,0,1 25:30,0,6,0,0,1 26:4,4 27:8,6 28:8,10 29:8,10 30:10,10,2 31:10,10,2 32:15,5,7 33:15,5,7 34:20,0,12
+35:8,12 36:8,12 37:8,18 38:10,20,2 39:10,20,2 40:15,15,7 41:15,15,7 42:20,10,12 43:20,10,12 44:20,6 45:24,10
+46:30,10,2 47:35,5,7 48:40,0,12 49:6,2 50:10,1 51:14 52:4,4,2 53:8,3,2 54:4,5,0,2 55:8,4,0,2 56:8,4,0,2 57:12,3,0,2
+58:5,0,11 59:10,0,10 60:10,0,10 61:15,0,9 62:10,0,2 63:5,0,3 64:7,0,3 65:8,3,0,3 66:12,5,0,0,5 67:16,10,0,0,4
+68:25,5,1,0,0,11 69:30,10,2,0,0,10 70:30,10,2,0,0,10 71:35,15,3,0,0,9 72:20,30,12 73:20,30,12 74:20,30,12 75:20,30,12
+76:15,25,11,0,0,1 77:15,25,11,0,0,1 78:15,25,11,0,0,1 79:15,25,11,0,0,1 80:10,20,10,0,0,2 81:10,20,10,0,0,2
+82:10,20,10,0,0,2 83:5,15,9,0,0,3 84:12 85:24,2 86:12,2 87:16,1 88:16,2 89:18,3 90:20,4 91:8,2,4 92:13,3,3,1
+"""
+
+
+def _johnson_full():
+    out = {}
+    for tok in _JOHNSON_CENSUS.split():
+        k, vec = tok.split(":")
+        cen = {size: int(c) for size, c in zip((3, 4, 5, 6, 8, 10), vec.split(",")) if int(c)}
+        out["J" + k] = JOHNSON["J" + k] + (cen,)
+    return out
+
+
+JOHNSON_FULL = _johnson_full()    # "J5": (V, E, F, {corners: count})
+
+# Johnson's names by number (second copy; the first is Textbook.johnsonNames)
+JOHNSON_NAMES = [
+    "Square Pyramid", "Pentagonal Pyramid", "Triangular Cupola", "Square Cupola", "Pentagonal Cupola",
+    "Pentagonal Rotunda", "Elongated Triangular Pyramid", "Elongated Square Pyramid", "Elongated Pentagonal Pyramid",
+    "Gyroelongated Square Pyramid", "Gyroelongated Pentagonal Pyramid", "Triangular Dipyramid", "Pentagonal Dipyramid",
+    "Elongated Triangular Dipyramid", "Elongated Square Dipyramid", "Elongated Pentagonal Dipyramid",
+    "Gyroelongated Square Dipyramid", "Elongated Triangular Cupola", "Elongated Square Cupola",
+    "Elongated Pentagonal Cupola", "Elongated Pentagonal Rotunda", "Gyroelongated Triangular Cupola",
+    "Gyroelongated Square Cupola", "Gyroelongated Pentagonal Cupola", "Gyroelongated Pentagonal Rotunda",
+    "Gyrobifastigium", "Triangular Orthobicupola", "Square Orthobicupola", "Square Gyrobicupola",
+    "Pentagonal Orthobicupola", "Pentagonal Gyrobicupola", "Pentagonal Orthocupolarotunda",
+    "Pentagonal Gyrocupolarotunda", "Pentagonal Orthobirotunda", "Elongated Triangular Orthobicupola",
+    "Elongated Triangular Gyrobicupola", "Elongated Square Gyrobicupola", "Elongated Pentagonal Orthobicupola",
+    "Elongated Pentagonal Gyrobicupola", "Elongated Pentagonal Orthocupolarotunda",
+    "Elongated Pentagonal Gyrocupolarotunda", "Elongated Pentagonal Orthobirotunda",
+    "Elongated Pentagonal Gyrobirotunda", "Gyroelongated Triangular Bicupola", "Gyroelongated Square Bicupola",
+    "Gyroelongated Pentagonal Bicupola", "Gyroelongated Pentagonal Cupolarotunda",
+    "Gyroelongated Pentagonal Birotunda", "Augmented Triangular Prism", "Biaugmented Triangular Prism",
+    "Triaugmented Triangular Prism", "Augmented Pentagonal Prism", "Biaugmented Pentagonal Prism",
+    "Augmented Hexagonal Prism", "Parabiaugmented Hexagonal Prism", "Metabiaugmented Hexagonal Prism",
+    "Triaugmented Hexagonal Prism", "Augmented Dodecahedron", "Parabiaugmented Dodecahedron",
+    "Metabiaugmented Dodecahedron", "Triaugmented Dodecahedron", "Metabidiminished Icosahedron",
+    "Tridiminished Icosahedron", "Augmented Tridiminished Icosahedron", "Augmented Truncated Tetrahedron",
+    "Augmented Truncated Cube", "Biaugmented Truncated Cube", "Augmented Truncated Dodecahedron",
+    "Parabiaugmented Truncated Dodecahedron", "Metabiaugmented Truncated Dodecahedron",
+    "Triaugmented Truncated Dodecahedron", "Gyrate Rhombicosidodecahedron", "Parabigyrate Rhombicosidodecahedron",
+    "Metabigyrate Rhombicosidodecahedron", "Trigyrate Rhombicosidodecahedron", "Diminished Rhombicosidodecahedron",
+    "Paragyrate Diminished Rhombicosidodecahedron", "Metagyrate Diminished Rhombicosidodecahedron",
+    "Bigyrate Diminished Rhombicosidodecahedron", "Parabidiminished Rhombicosidodecahedron",
+    "Metabidiminished Rhombicosidodecahedron", "Gyrate Bidiminished Rhombicosidodecahedron",
+    "Tridiminished Rhombicosidodecahedron", "Snub Disphenoid", "Snub Square Antiprism", "Sphenocorona",
+    "Augmented Sphenocorona", "Sphenomegacorona", "Hebesphenomegacorona", "Disphenocingulum", "Bilunabirotunda",
+    "Triangular Hebesphenorotunda",
+]
+JOHNSON_BY_NAME = {n: JOHNSON_FULL["J%d" % (i + 1)] for i, n in enumerate(JOHNSON_NAMES)}
+
+_NGON = {3: "Triangular", 4: "Square", 5: "Pentagonal", 6: "Hexagonal", 7: "Heptagonal", 8: "Octagonal",
+         9: "Nonagonal", 10: "Decagonal"}
+
+
+def _census(*pairs):
+    out = {}
+    for size, c in pairs:
+        out[size] = out.get(size, 0) + c
+    return out
+
+
+# derived here from n by the general formulas (Spec/Textbook.lean lists the rows literally)
+PRISM_ANTIPRISM = {}
+for _n, _w in _NGON.items():
+    PRISM_ANTIPRISM[_w + " Prism"] = (2 * _n, 3 * _n, _n + 2, _census((4, _n), (_n, 2)))
+    PRISM_ANTIPRISM[_w + " Antiprism"] = (2 * _n, 4 * _n, 2 * _n + 2, _census((3, 2 * _n), (_n, 2)))
+PYRAMID_DIPYRAMID = {}
+for _n in (3, 4, 5):
+    PYRAMID_DIPYRAMID[_NGON[_n] + " Pyramid"] = (_n + 1, 2 * _n, _n + 1, _census((3, _n), (_n, 1)))
+    PYRAMID_DIPYRAMID[_NGON[_n] + " Dipyramid"] = (_n + 2, 3 * _n, 2 * _n, _census((3, 2 * _n)))
+# the repository's solids outside the families, by the record's `name`
+OTHER_SOLIDS = {
+    "Squashed Dodecahedron": (14, 24, 12, {4: 12}), "Rhombic Icosahedron": (22, 40, 20, {4: 20}),
+    "Rhombic Enneacontahedron": (92, 180, 90, {4: 90}), "Obtuse Golden Rhombohedron": (8, 12, 6, {4: 6}),
+    "Acute Golden Rhombohedron": (8, 12, 6, {4: 6}), "Duerers Solid": (12, 18, 8, {3: 2, 5: 6}),
+    "Elongated Dodecahedron": (18, 28, 12, {4: 8, 6: 4}),
+}
+ROWS_BY_TABLE = {"platonic": TEXTBOOK["platonic"], "archimedean": TEXTBOOK["archimedean"], "catalan": TEXTBOOK["catalan"],
+                 "johnson": JOHNSON_BY_NAME, "prismAntiprism": PRISM_ANTIPRISM, "pyramidDipyramid": PYRAMID_DIPYRAMID}
 
 GEN_DIR = os.path.join(LEAN, "CoxeterVerif", "Generated")
 OWN_PREFIXES = ("Tables", "Check")  # the only generated files this module writes or deletes
@@ -231,7 +332,7 @@ def table_entries(fams=None):
                 faces = []
                 notes.append("%s[%s]: get_shape raised; empty certificate" % (fn, name))
             src = rec.get("source") or ""
-            ref = (rec.get("name") or "") if src else ""
+            ref = rec.get("name") or ""     # recorded whether or not the record cites a family
             typ = rec.get("type")
             short = rec.get("short_name") or rec.get("short_code") or ""
             items.append({"short": short if isinstance(short, str) else "", "ident": "%s_%d" % (lean_id, j), "name": name, "type": typ if isinstance(typ, str) else "",
@@ -359,7 +460,8 @@ CLASS_NAME = {"platonic": "PlatonicFamily", "archimedean": "ArchimedeanFamily", 
               "johnson": "JohnsonFamily", "prismAntiprism": "PrismAntiprismFamily",
               "pyramidDipyramid": "PyramidDipyramidFamily", "science1220869": "DOI_SHAPE_REPOSITORIES[science1220869]"}
 FILE_TO_ID = {fn: lean_id for lean_id, fn, _ in TABLES}
-WHICH = {"platonic": 0, "archimedean": 1, "catalan": 2, "johnson": 3}
+WHICH = {"platonic": 0, "archimedean": 1, "catalan": 2, "johnson": 3, "prismAntiprism": 4, "pyramidDipyramid": 5,
+         "science1220869": 6}
 
 
 def johnson_key(short):
@@ -468,7 +570,7 @@ def cert_predicates(v, faces):
     return out, near, info
 
 
-def hull_facts(v):
+def hull_facts(v, coplanar_tol=1e-9):
     """Independent facts about conv(v) from scipy's Qhull wrapper (nothing of coxeter involved):
     V (extreme points), E, F, census, volume, edge lengths, per-face regularity defect, in-radius spread."""
     v = np.asarray(v, dtype=float)
@@ -476,7 +578,7 @@ def hull_facts(v):
     groups = []
     for simp, eq in zip(hull.simplices, hull.equations):
         for g in groups:
-            if np.all(np.abs(g["eq"] - eq) < 1e-9):
+            if np.all(np.abs(g["eq"] - eq) < coplanar_tol):
                 g["simps"].append(simp)
                 break
         else:
@@ -531,6 +633,36 @@ def same_point_set(a, b, tol=TOL):
 
 
 # ------------------------------------------------------------------------------------------ per-entry check
+
+def spec_row(lean_id, name, item, rec):
+    """-> ((V, E, F, census) | None, description): the row of the Python copy of the hand-entered tables that says
+    which solid the entry is.  None = the entry has no specification row.  (The rows of OTHER_SOLIDS are compared up
+    to faces split by the six-digit coordinates, see eval_entry.)"""
+    if lean_id in TEXTBOOK:
+        return TEXTBOOK[lean_id].get(name), "the textbook row %r" % name
+    if lean_id == "johnson":
+        k = johnson_key(item["short"])
+        return JOHNSON_FULL.get(k), "Johnson solid %s" % k
+    if lean_id in ROWS_BY_TABLE:
+        return ROWS_BY_TABLE[lean_id].get(name), "the row %r" % name
+    # repository: key = code, `name` field = what it is, `source` = the family it cites
+    src, ref = rec.get("source"), rec.get("name")
+    k = johnson_key(name)
+    if k is not None:
+        row = JOHNSON_FULL.get(k)
+        if src == "johnson.json" and row is not None and JOHNSON_BY_NAME.get(ref) != row:
+            return None, "Johnson solid %s cited as %r" % (k, ref)
+        if src == "johnson.json" and (not 1 <= int(k[1:]) <= 92 or JOHNSON_NAMES[int(k[1:]) - 1] != ref):
+            return None, "Johnson solid %s cited under the name %r" % (k, ref)
+        if src and src != "johnson.json":
+            rows = ROWS_BY_TABLE.get(FILE_TO_ID.get(src), {})
+            if rows.get(ref) != row:
+                return None, "Johnson solid %s cited as %r of %s" % (k, ref, src)
+        return row, "Johnson solid %s" % k
+    if src:
+        return ROWS_BY_TABLE.get(FILE_TO_ID.get(src), {}).get(ref), "the row %r of %s" % (ref, src)
+    return OTHER_SOLIDS.get(ref), "the row %r of the other solids" % ref
+
 
 LEAN_KEYS = ["uses", "uses_ref", "closed", "closed_ref", "euler", "convex", "convex_ref", "posvol", "unitvol",
              "edges", "diagonals", "insphere", "polyhedron"]
@@ -600,9 +732,9 @@ def eval_entry(ctx, tables_json, entries, fams, lean_id, name):
         ctx.disagree("c18.check:counts", case, [lean["V"], lean["E2"], lean["F"], info])
     if "vol6" in info and not ctx.close_enough(lean["vol6"] / 1e54, info["vol6"], 6.0):
         ctx.disagree("c18.check:vol6", case, [lean["vol6"] / 1e54, info["vol6"]])
-    r = ctx.driver.Q("c18.table", WHICH.get(lean_id, 4), s2codes(name), s2codes(item["short"]),
-                     *entry_tokens(item["verts"], faces))
-    lean_table_ok, lean_textbook_ok = r[0], r[1]
+    r = ctx.driver.Q("c18.table", WHICH.get(lean_id, 7), s2codes(name), s2codes(item["short"]), s2codes(item["source"]),
+                     s2codes(item["ref"]), *entry_tokens(item["verts"], faces))
+    lean_table_ok, lean_textbook_ok, lean_name_ok = r[0], r[1], r[2]
     # the certificate clause itself (this is what the kernel proves per entry)
     if not lean["polyhedron"]:
         ctx.fail("TabulatedGSDShapeFamily.get_shape:not-closed-convex-surface:" + lean_id,
@@ -624,20 +756,45 @@ def eval_entry(ctx, tables_json, entries, fams, lean_id, name):
                  "vertex/edge/face structure of %s[%r] differs from the convex hull of its vertices" % (cls, name), case,
                  {"hull": [hf["V"], hf["E"], hf["F"]], "faces": [lean["V"], lean["E2"] // 2, lean["F"]],
                   "reported": [shape.num_vertices, shape.num_edges, shape.num_faces], "stored": len(sv)})
+    # the specification row of this entry (second, Python copy of the hand-entered tables): EVERY entry of every
+    # table must have one, and must have its (V, E, F) and face census
+    tb, how = spec_row(lean_id, name, item, rec)
+    got = (hf["V"], hf["E"], hf["F"], {k: c for k, c in hf["census"].items()})
+    cert = (lean["V"], lean["E2"] // 2, lean["F"], {k: c for k, c in enumerate(lean["census"]) if c})
+    ctx.count("spec-row:" + ("none" if tb is None else "johnson-number" if how.startswith("Johnson") else
+                             "other-solids" if how.endswith("other solids") else
+                             "cited:" + str(rec.get("source")) if lean_id == "science1220869" else "by-name"))
+    split_ok = None
+    if tb is not None and lean_id == "science1220869" and how.endswith("of the other solids"):
+        # the repository's solids outside the families are given to six significant digits: faces are planar to ~1e-6
+        # only and the hull splits them.  Demanded: exactly the row's vertices; merging the faces that are coplanar
+        # within 1e-4 gives exactly the row; the certificate has as many extra edges as extra faces.
+        ctx.count("other-solid:" + ("exact" if got == tb else "faces-split"))
+        hc = hull_facts(sv, coplanar_tol=1e-4)
+        coarse = (hc["V"], hc["E"], hc["F"], {k: c for k, c in hc["census"].items()})
+        split_ok = bool(cert[0] == tb[0] and cert[2] >= tb[2] and cert[1] - tb[1] == cert[2] - tb[2])
+        if coarse != tb or not split_ok:
+            ctx.fail("TabulatedGSDShapeFamily.get_shape:textbook-counts:" + lean_id,
+                     "%s[%r] is not %s (faces merged within 1e-4)" % (cls, name, how), case,
+                     {"textbook": tb, "hull_1e-4": coarse, "faces": cert})
+        if bool(lean_textbook_ok) != split_ok:
+            ctx.disagree("c18.table:textbook-split", case, [lean_textbook_ok, cert, tb])
+    if split_ok is not None:
+        pass
+    elif tb is None:
+        ctx.fail("TabulatedGSDShapeFamily.names:%s:%s" % ("not-a-textbook-solid" if lean_id in UNITVOL else "no-spec-row",
+                                                           lean_id),
+                 "%s[%r] has no row in the hand-entered tables (%s): the name does not say which solid it is" % (
+                     cls, name, how), case, {"name": name, "short": item["short"], "source": item["source"],
+                                             "ref": item["ref"]})
+    elif got != tb or cert != tb:
+        ctx.fail("TabulatedGSDShapeFamily.get_shape:%s:%s" % ("johnson-counts" if lean_id == "johnson" else
+                                                              "textbook-counts", lean_id),
+                 "%s[%r] does not have the vertex/edge/face counts and face census of %s" % (cls, name, how), case,
+                 {"textbook": tb, "hull": got, "faces": cert})
+    if split_ok is None and bool(lean_textbook_ok) != (tb is not None and cert == tb):
+        ctx.disagree("c18.table:textbook", case, [lean_textbook_ok, cert, tb])
     if lean_id in UNITVOL:
-        tb = TEXTBOOK[lean_id].get(name)
-        if tb is None:
-            ctx.fail("TabulatedGSDShapeFamily.names:not-a-textbook-solid:" + lean_id,
-                     "%r is not one of the %d %s solids" % (name, len(TEXTBOOK[lean_id]), lean_id), case, name)
-        else:
-            got = (hf["V"], hf["E"], hf["F"], {k: c for k, c in hf["census"].items()})
-            cert = (lean["V"], lean["E2"] // 2, lean["F"], {k: c for k, c in enumerate(lean["census"]) if c})
-            if got != tb or cert != tb:
-                ctx.fail("TabulatedGSDShapeFamily.get_shape:textbook-counts:" + lean_id,
-                         "%s[%r] does not have the textbook vertex/edge/face counts" % (cls, name), case,
-                         {"textbook": tb, "hull": got, "faces": cert})
-            if bool(lean_textbook_ok) != (cert == tb):
-                ctx.disagree("c18.table:textbook", case, [lean_textbook_ok, cert, tb])
         vols = (hf["volume"], float(shape.volume), lean["vol6"] / 6e54)
         if any(abs(x - 1) > TOL for x in vols):
             ctx.fail("TabulatedGSDShapeFamily.get_shape:unit-volume:" + lean_id,
@@ -650,29 +807,29 @@ def eval_entry(ctx, tables_json, entries, fams, lean_id, name):
             ctx.fail("TabulatedGSDShapeFamily.get_shape:regular-faces:" + lean_id,
                      "%s[%r] has a face that is not a regular polygon" % (cls, name), case,
                      [hf["reg_defect"], lean["edges"], lean["diagonals"]])
+    name_ok = True
     if lean_id == "johnson":
-        tb = JOHNSON.get(johnson_key(item["short"]))
-        got = (hf["V"], hf["E"], hf["F"])
-        cert = (lean["V"], lean["E2"] // 2, lean["F"])
-        if tb is None or got != tb or cert != tb:
-            ctx.fail("TabulatedGSDShapeFamily.get_shape:johnson-counts:johnson",
-                     "JohnsonFamily[%r] (%s) does not have the vertex/edge/face counts of that Johnson solid" % (
-                         name, item["short"]), case, {"textbook": tb, "hull": got, "faces": cert})
-        if bool(lean_textbook_ok) != (tb is not None and cert == tb):
-            ctx.disagree("c18.table:johnson-counts", case, [lean_textbook_ok, cert, tb])
+        k = johnson_key(item["short"])
+        name_ok = k is not None and 1 <= int(k[1:]) <= 92 and JOHNSON_NAMES[int(k[1:]) - 1] == name
+        if not name_ok:
+            ctx.fail("TabulatedGSDShapeFamily.names:johnson-name:johnson",
+                     "JohnsonFamily[%r] carries the number %s, which is not Johnson's number of that name" % (
+                         name, item["short"]), case, [name, item["short"]])
+        if bool(lean_name_ok) != name_ok:
+            ctx.disagree("c18.table:johnson-name", case, [lean_name_ok, name_ok])
     if lean_id == "catalan":
         if hf["inradius_spread"] > TOL or hf["inradius_min"] <= 0 or not lean["insphere"]:
             ctx.fail("TabulatedGSDShapeFamily.get_shape:insphere:catalan",
                      "CatalanFamily[%r] has no insphere (face planes not at one distance from the centroid)" % name,
                      case, [hf["inradius_spread"], lean["insphere"]])
     # per-table obligation as the kernel sees it must agree with the pieces
-    want = bool(lean["polyhedron"])
+    want = bool(lean["polyhedron"]) and bool(lean_textbook_ok)
     if lean_id in ("platonic", "archimedean"):
-        want = want and bool(lean_textbook_ok) and bool(lean["unitvol"]) and bool(lean["edges"] and lean["diagonals"])
+        want = want and bool(lean["unitvol"]) and bool(lean["edges"] and lean["diagonals"])
     elif lean_id == "catalan":
-        want = want and bool(lean_textbook_ok) and bool(lean["unitvol"]) and bool(lean["insphere"])
+        want = want and bool(lean["unitvol"]) and bool(lean["insphere"])
     elif lean_id == "johnson":
-        want = want and bool(lean["edges"] and lean["diagonals"]) and bool(lean_textbook_ok)
+        want = want and bool(lean["edges"] and lean["diagonals"]) and bool(lean_name_ok)
     if bool(lean_table_ok) != want:
         ctx.disagree("c18.table:obligation", case, [lean_table_ok, want])
 
@@ -867,10 +1024,20 @@ def doi_probes(ctx):
     known = list(to_file) + [k for k in to_fam if k not in to_file]
     unknown = ["", "10.0000/nothing", DOI + " ", DOI.upper() if DOI.upper() != DOI else DOI + "x", DOI[:-1],
                "science1220869", "10.1126/science.1220869.json", "doi:" + DOI]
+    # a DOI is an opaque key: the property's "unknown DOI" is any string that is not EXACTLY a key of the two maps.
+    # Strings that merely CONTAIN a known DOI (other article numbers, supplements, resolver URLs, other case or
+    # white space) are different keys and must raise KeyError like any other.
+    for kd in known:
+        unknown += [kd + "0", kd + "1", kd + ".sm", kd + "/suppl_file", kd + "/", "1" + kd, "x" + kd, kd[1:], kd[:-1],
+                    kd.replace("/", "/x", 1), " " + kd, kd + " ", "\t" + kd, kd + "\n", " " + kd + " ",
+                    "doi:" + kd, "DOI:" + kd, "doi: " + kd, "https://doi.org/" + kd, "http://dx.doi.org/" + kd,
+                    "https://doi.org/" + kd + "#abstract", kd.upper(), kd.lower(), kd.swapcase(), kd + kd,
+                    kd.replace(".", "", 1), kd.replace("/", "%2F")]
+    ctx.count("probe:doi-contains-known", 27 * len(known))
     for _ in range(ctx.budget(5, 50)):
         n = int(ctx.rng.integers(1, 25))
         unknown.append("".join(chr(int(c)) for c in ctx.rng.integers(33, 127, size=n)))
-    unknown = [u for u in unknown if u not in known]
+    unknown = [u for u in dict.fromkeys(unknown) if u not in known]
     # sequence through ONE fresh dictionary (the module-level one is left alone): unknown, known, unknown, known again
     seq = []
     for i, u in enumerate(unknown):
@@ -905,13 +1072,23 @@ def doi_probes(ctx):
             elif key in d:
                 ctx.fail("DOI_SHAPE_REPOSITORIES.__getitem__:unknown-doi-stored",
                          "a failed lookup of %r left a key in the dictionary" % key, case, key)
-    # the module-level object answers the same way for an unknown key
-    try:
-        cf.DOI_SHAPE_REPOSITORIES["10.0000/nothing"]
-        ctx.fail("DOI_SHAPE_REPOSITORIES.__getitem__:unknown-doi-no-KeyError", "DOI_SHAPE_REPOSITORIES accepted an "
-                 "unknown DOI", {"kind": "doi", "key": "10.0000/nothing"}, "")
-    except KeyError:
-        pass
+    # the module-level object answers the same way for unknown keys, and never lists one afterwards
+    for key in ["10.0000/nothing"] + [k + sfx for k in known for sfx in ("0", ".sm")] + ["doi:" + k for k in known]:
+        if key in known:
+            continue
+        try:
+            cf.DOI_SHAPE_REPOSITORIES[key]
+            ctx.fail("DOI_SHAPE_REPOSITORIES.__getitem__:unknown-doi-no-KeyError", "DOI_SHAPE_REPOSITORIES accepted "
+                     "the unknown DOI %r" % key, {"kind": "doi", "key": key}, "")
+        except KeyError:
+            pass
+        except Exception as e:
+            ctx.fail("DOI_SHAPE_REPOSITORIES.__getitem__:unknown-doi-no-KeyError", "DOI_SHAPE_REPOSITORIES raised %s "
+                     "for the unknown DOI %r" % (exc_kind(e), key), {"kind": "doi", "key": key}, repr(e))
+    stray = [k for k in cf.DOI_SHAPE_REPOSITORIES if k not in known]
+    if stray:
+        ctx.fail("DOI_SHAPE_REPOSITORIES.__getitem__:unknown-doi-stored", "DOI_SHAPE_REPOSITORIES lists keys that are "
+                 "not known DOIs", {"kind": "doi", "key": stray[0]}, stray[:5])
     # B: the model through the same sequence
     def mp(m):
         return L([[s2codes(k), L([s2codes(x) for x in v])] for k, v in m.items()])
@@ -941,11 +1118,16 @@ def doi_probes(ctx):
 
 
 def textbook_copies(ctx):
-    """the two hand-entered copies (Spec/Textbook.lean, TEXTBOOK above) must agree"""
-    for which, lean_id in enumerate(("platonic", "archimedean", "catalan", "johnson")):
+    """the two hand-entered copies (Spec/Textbook.lean, the tables above) must agree, row by row"""
+    mine_by_which = [("platonic", TEXTBOOK["platonic"]), ("archimedean", TEXTBOOK["archimedean"]),
+                     ("catalan", TEXTBOOK["catalan"]), ("johnson", JOHNSON_FULL), ("prismAntiprism", PRISM_ANTIPRISM),
+                     ("pyramidDipyramid", PYRAMID_DIPYRAMID), ("otherSolids", OTHER_SOLIDS),
+                     ("johnsonByName", JOHNSON_BY_NAME)]
+    for which, (lean_id, mine) in enumerate(mine_by_which):
         r = ctx.driver.Q("c18.textbook", which)
         pos = 1
         rows = {}
+        order = []
         for _ in range(r[0]):
             ln = r[pos]; pos += 1
             name = "".join(chr(c) for c in r[pos:pos + ln]); pos += ln
@@ -955,12 +1137,18 @@ def textbook_copies(ctx):
                 cen[r[pos]] = r[pos + 1]; pos += 2
             cons = r[pos]; pos += 1
             rows[name] = (v, e, f, cen)
+            order.append(name)
             if not cons:
                 ctx.disagree("c18.textbook:inconsistent-row", {"kind": "textbook", "name": name}, [v, e, f, cen])
-        mine = TEXTBOOK[lean_id] if lean_id in TEXTBOOK else {k: v + ({},) for k, v in JOHNSON.items()}
-        if rows != mine:
+        if rows != mine or len(order) != len(mine):
             ctx.disagree("c18.textbook", {"kind": "textbook", "table": lean_id},
                          sorted(set(rows) ^ set(mine)) or [n for n in rows if rows[n] != mine[n]])
+        if lean_id == "johnsonByName" and order != JOHNSON_NAMES:
+            ctx.disagree("c18.textbook:johnson-names", {"kind": "textbook", "table": lean_id},
+                         [a for a, b in zip(order, JOHNSON_NAMES) if a != b][:5])
+        for name, (v, e, f, cen) in mine.items():   # the Python copy is internally consistent as well
+            if v - e + f != 2 or sum(cen.values()) != f or sum(k * c for k, c in cen.items()) != 2 * e:
+                ctx.disagree("c18.textbook:inconsistent-python-row", {"kind": "textbook", "name": name}, [v, e, f, cen])
 
 
 def mutant_certificates(ctx, entries, tables_json):
@@ -1016,6 +1204,353 @@ def mutant_certificates(ctx, entries, tables_json):
     ctx.count("mutant:rejected", rejected)
 
 
+# ------------------------------------------------------------------------------------------ histories
+#
+# The lookup of a family is a dict lookup in ITS OWN table: what it answers must not depend on what any family
+# (the shipped singletons or a user-made TabulatedGSDShapeFamily) was asked before, and two answers must be
+# independent objects.  A history is a list of steps over a "world" = the seven shipped families + user-made
+# tables:   ["get", fam, name] | ["getmut", fam, name] (get, check, then mutate the returned shape in place)
+#         | ["iter", fam].  Expected answers come from the JSON files / the user's own dict, never from a family.
+
+SHIPPED = [lid for lid, _, _ in TABLES]
+
+
+def _json_vertices(tables_json, lean_id, name):
+    rec = tables_json[lean_id + ":dict"][name]
+    return [[float(c) for c in row] for row in rec["vertices"]]
+
+
+class HWorld:
+    def __init__(self, fams, tables_json, user_specs):
+        """user_specs: [[ [name, source table, source entry, scale], ... ], ...] (JSON-able)"""
+        from coxeter.families import TabulatedGSDShapeFamily
+        self.labels = list(SHIPPED)
+        self.fams = [fams[lid] for lid in SHIPPED]
+        self.records = []          # per family: ordered {name: vertices (float array)}
+        for lid in SHIPPED:
+            self.records.append({n: np.array(_json_vertices(tables_json, lid, n), dtype=float)
+                                 for n, _ in tables_json[lid]})
+        self.user_data = []
+        for k, spec in enumerate(user_specs):
+            data = {}
+            for name, st, sn, scale in spec:
+                v = (np.array(_json_vertices(tables_json, st, sn), dtype=float) * float(scale)).tolist()
+                data[name] = {"type": "ConvexPolyhedron", "vertices": v}
+            self.labels.append("user%d" % k)
+            self.fams.append(TabulatedGSDShapeFamily(data))
+            self.records.append({n: np.array(d["vertices"], dtype=float) for n, d in data.items()})
+            self.user_data.append((data, json.loads(json.dumps(data))))
+        self.user_specs = user_specs
+
+    def table_label(self, i):
+        return self.labels[i] if i < len(SHIPPED) else "user"
+
+    def classify(self, i, verts, name=None):
+        """which record of the world a returned vertex array is: 100000*family + position (the family's own record
+        of that name first, then its other records, then the other families)"""
+        verts = np.asarray(verts, dtype=float)
+        own = self.records[i].get(name) if name is not None else None
+        if own is not None and own.shape == verts.shape and np.array_equal(own, verts):
+            return 100000 * i + list(self.records[i]).index(name)
+        for j in [i] + [j for j in range(len(self.fams)) if j != i]:
+            for pos, (n, v) in enumerate(self.records[j].items()):
+                if v.shape == verts.shape and np.array_equal(v, verts):
+                    return 100000 * j + pos
+        return -2
+
+
+def _mutate_in_place(shape):
+    """what a user may do with a shape they were handed: rescale, move, overwrite coordinates"""
+    try:
+        v = shape.vertices
+        if isinstance(v, np.ndarray) and v.flags.writeable:
+            v *= 1.5
+            v += 0.25
+    except Exception:
+        pass
+    for attr, val in (("centroid", (7.0, -3.0, 2.0)),):
+        try:
+            setattr(shape, attr, val)
+        except Exception:
+            pass
+
+
+def run_history(world, steps):
+    """-> (answers, problems): answers[k] = list of (class code, payload | error kind) of step k (the observable the
+    model predicts); problems = [(sig, what, step index, detail)] (implementation vs the tables themselves)."""
+    answers, problems = [], []
+    last = {}       # (fam, name) -> last shape handed out
+    last_ok = {}    # (fam, name) -> the last answer was the table's own record
+    mutated = set()
+    for k, st in enumerate(steps):
+        kind, i = st[0], int(st[1])
+        fam, recs, lab = world.fams[i], world.records[i], world.table_label(i)
+        cls = CLASS_NAME.get(world.labels[i], "TabulatedGSDShapeFamily(user table %s)" % world.labels[i])
+        if kind == "iter":
+            try:
+                pairs = _quiet(lambda: list(iter(fam)))
+            except Exception as e:
+                problems.append(("TabulatedGSDShapeFamily.__iter__:raises-after-history:" + lab,
+                                 "iterating %s raised %s" % (cls, exc_kind(e)), k, repr(e)))
+                answers.append([(-1, exc_kind(e))])
+                continue
+            ans = []
+            ok = [n for n, _ in pairs] == list(recs)
+            for n, shp in pairs:
+                code = world.classify(i, shp.vertices, n)
+                ans.append((0 if type(shp).__name__ == "ConvexPolyhedron" else 2, code))
+                if n not in recs or not np.array_equal(np.asarray(shp.vertices, dtype=float), recs[n]):
+                    ok = False
+            if not ok:
+                problems.append(("TabulatedGSDShapeFamily.__iter__:not-own-records:" + lab,
+                                 "iter(%s) does not yield its own table (names in order, each with the vertices stored "
+                                 "under that name in THIS table) after the preceding queries" % cls, k,
+                                 [n for n, _ in pairs][:5]))
+            answers.append(ans)
+            continue
+        name = st[2]
+        try:
+            shp = _quiet(fam.get_shape, name)
+        except Exception as e:
+            answers.append([(-1, exc_kind(e))])
+            if name in recs:
+                problems.append(("TabulatedGSDShapeFamily.get_shape:raises-after-history:" + lab,
+                                 "%s.get_shape(%r) raised %s after the preceding queries" % (cls, name, exc_kind(e)), k,
+                                 repr(e)))
+            elif exc_kind(e) != "KeyError":
+                problems.append(("TabulatedGSDShapeFamily.get_shape:foreign-name-no-KeyError:" + lab,
+                                 "%s.get_shape(%r) raised %s, not KeyError" % (cls, name, exc_kind(e)), k, repr(e)))
+            continue
+        verts = np.array(np.asarray(shp.vertices, dtype=float))
+        code = world.classify(i, verts, name)
+        answers.append([(0 if type(shp).__name__ == "ConvexPolyhedron" else 2, code)])
+        if name not in recs:
+            owner = world.labels[code // 100000] if code >= 0 else "?"
+            problems.append(("TabulatedGSDShapeFamily.get_shape:foreign-name-no-KeyError:" + lab,
+                             "%s.get_shape(%r) returned a %s with %d vertices (the record of %s) instead of raising "
+                             "KeyError: %r is not a name of this table" % (cls, name, type(shp).__name__, len(verts),
+                                                                           owner, name), k, {"record_of": owner}))
+        elif not np.array_equal(verts, recs[name]):
+            if (i, name) in mutated and last_ok.get((i, name)):
+                problems.append(("TabulatedGSDShapeFamily.get_shape:result-not-independent:" + lab,
+                                 "%s.get_shape(%r) returns a shape that reflects what the caller did to the shape "
+                                 "returned by an earlier call" % (cls, name), k,
+                                 float(np.abs(verts - recs[name]).max()) if verts.shape == recs[name].shape else None))
+            else:
+                owner = world.labels[code // 100000] if code >= 0 else "?"
+                problems.append(("TabulatedGSDShapeFamily.get_shape:not-own-record:" + lab,
+                                 "%s.get_shape(%r) does not have the vertices stored under that name in THIS table "
+                                 "(it is the record of %s)" % (cls, name, owner), k, {"record_of": owner}))
+        last_ok[(i, name)] = bool(name in recs and np.array_equal(verts, recs[name]))
+        prev = last.get((i, name))
+        if prev is not None and (prev is shp or np.shares_memory(np.asarray(prev.vertices), np.asarray(shp.vertices))):
+            problems.append(("TabulatedGSDShapeFamily.get_shape:result-aliased:" + lab,
+                             "two calls of %s.get_shape(%r) return the same object / the same vertex buffer" % (
+                                 cls, name), k, None))
+        last[(i, name)] = shp
+        if kind == "getmut":
+            _mutate_in_place(shp)
+            mutated.add((i, name))
+    # the tables themselves are untouched by the queries
+    for k, (data, orig) in enumerate(world.user_data):
+        fam = world.fams[len(SHIPPED) + k]
+        if list(fam.names) != list(orig) or json.loads(json.dumps(data, default=jsonable_np)) != orig:
+            problems.append(("TabulatedGSDShapeFamily.get_shape:table-modified:user",
+                             "the queries changed the user's table (names or stored vertices)", len(steps) - 1, None))
+    return answers, problems
+
+
+def jsonable_np(o):
+    if isinstance(o, np.ndarray):
+        return o.tolist()
+    if isinstance(o, (np.floating, np.integer)):
+        return o.item()
+    raise TypeError(repr(type(o)))
+
+
+def model_history(ctx, world, steps):
+    toks = [len(world.fams)]
+    for recs in world.records:
+        toks.append(len(recs))
+        for name in recs:
+            toks += [s2codes(name), 1, s2codes("ConvexPolyhedron"), 0]
+    toks.append(len(steps))
+    for st in steps:
+        if st[0] == "iter":
+            toks += [1, int(st[1])]
+        else:
+            toks += [0, int(st[1]), s2codes(st[2])]
+    r = ctx.driver.Q("c18.session", *toks)
+    pos = 0
+    out = []
+    for _ in steps:
+        n = r[pos]; pos += 1
+        ans = []
+        for _ in range(n):
+            c = r[pos]; pos += 1
+            if c == -1:
+                ln = r[pos]; pos += 1
+                ans.append((-1, "".join(chr(x) for x in r[pos:pos + ln]))); pos += ln
+            else:
+                ans.append((c, r[pos])); pos += 1
+        out.append(ans)
+    return out
+
+
+def _minimal_histories(steps, k, world):
+    """candidate shorter histories that could show what step k shows, shortest first: one earlier step that touched
+    the same name (as a plain get) + step k; then all of them + step k"""
+    st = steps[k]
+    if st[0] == "iter":
+        names = set(world.records[int(st[1])])
+    else:
+        names = {st[2]}
+    pre = []
+    for s in steps[:k]:
+        if s[0] == "iter":
+            for n in sorted(names & set(world.records[int(s[1])])):
+                pre.append(["get", int(s[1]), n])
+        elif s[2] in names:
+            pre.append(list(s))
+    uniq = []
+    for s in pre:
+        if s not in uniq:
+            uniq.append(s)
+    out = [[s, list(st)] for s in uniq[:3]]
+    out.append(pre + [list(st)])
+    return out
+
+
+def _subprocess_history(user_specs, steps):
+    """run a history in a FRESH interpreter (caches of this process cannot be emptied); -> list of sigs, or None"""
+    import subprocess
+    import sys
+    import tempfile
+    from common import REPO
+    with tempfile.NamedTemporaryFile("w", suffix=".json", delete=False) as f:
+        json.dump({"user": user_specs, "steps": steps}, f)
+        path = f.name
+    try:
+        env = dict(os.environ, PYTHONPATH=REPO + os.pathsep + os.path.dirname(os.path.abspath(__file__)))
+        r = subprocess.run([sys.executable, os.path.abspath(__file__), "--history", path], env=env,
+                           capture_output=True, text=True, timeout=300)
+        return json.loads(r.stdout.strip().splitlines()[-1])
+    except Exception:
+        return None
+    finally:
+        os.unlink(path)
+
+
+def check_history(ctx, fams, tables_json, user_specs, steps, label, minimise=True):
+    """run one history against the implementation (C) and the model (B)"""
+    world = HWorld(fams, tables_json, user_specs)
+    case = {"kind": "history", "label": label, "user": user_specs, "steps": len(steps)}
+    ctx.case(case)
+    ctx.count("history:" + label)
+    ctx.count("history-steps", len(steps))
+    answers, problems = run_history(world, steps)
+    seen = set()
+    for sig, what, k, detail in problems:
+        if sig in seen:
+            continue
+        seen.add(sig)
+        hist = steps[:k + 1]
+        if minimise:
+            for cand in _minimal_histories(steps, k, world):
+                if len(cand) >= len(hist):
+                    continue
+                got = _subprocess_history(user_specs, cand)
+                if got is not None and sig in got:
+                    hist = cand
+                    break
+        if len(hist) > 400:      # keep the replay file readable: the failing step and what preceded it by kind
+            hist = [s for s in hist[:-1] if s[0] == "iter"] + [s for s in hist[:-1] if s[0] != "iter"][-50:] + hist[-1:]
+        named = [[s[0], world.labels[int(s[1])]] + list(s[2:]) for s in hist]
+        ctx.fail(sig, what + " — history: " + "; ".join(
+            "%s(%s)" % (s[0], ", ".join(repr(x) for x in s[1:])) for s in named[-4:]),
+            {"kind": "history", "label": label, "user": user_specs, "steps": hist, "steps_named": named}, detail)
+    model = model_history(ctx, world, steps)
+    for k, (a, m) in enumerate(zip(answers, model)):
+        if a != m:
+            ctx.disagree("c18.session", {"kind": "history", "label": label, "user": user_specs,
+                                         "steps": steps[:k + 1] if k < 400 else [steps[k]]},
+                         {"step": steps[k], "impl": repr(a[:3]), "model": repr(m[:3])})
+            break
+    return problems
+
+
+def history_sessions(ctx, fams, tables_json, entries):
+    rng = ctx.rng
+    nfam = len(SHIPPED)
+    names_of = [[n for n, _ in tables_json[lid]] for lid in SHIPPED]
+    all_names = []
+    for ns in names_of:
+        for n in ns:
+            if n not in all_names:
+                all_names.append(n)
+    # ---- 1. ordinary use first (every family iterated), THEN every family is asked for every name of every other
+    #         family; a user table that reuses shipped names for other solids is asked as well, twice, with the first
+    #         answer mutated
+    small = [(lid, it["name"]) for lid in SHIPPED for it in entries[lid] if 4 <= len(it["verts"]) <= 24]
+    def pick_src():
+        return small[int(rng.integers(0, len(small)))]
+    reuse = ["Cube", "Tetrahedron", "Square Pyramid", "Truncated Cube", "P03", "J01", "Triangular Prism"]
+    spec0 = []
+    for nm in reuse:
+        st, sn = pick_src()
+        while sn == nm:
+            st, sn = pick_src()
+        spec0.append([nm, st, sn, 2.0])
+    steps = [["iter", i] for i in range(nfam)]
+    for i in range(nfam):
+        own = set(names_of[i])
+        for n in all_names + ["Not A Solid"]:
+            if n not in own:
+                steps.append(["get", i, n])
+    u = nfam
+    for nm in reuse:
+        steps += [["getmut", u, nm], ["get", u, nm]]
+    steps += [["get", u, "Dodecahedron"], ["iter", u]]
+    for i in range(nfam):               # and the shipped tables still answer with their own records
+        n = names_of[i][int(rng.integers(0, len(names_of[i])))]
+        steps += [["getmut", i, n], ["get", i, n]]
+    check_history(ctx, fams, tables_json, [spec0], steps, "all-families-then-foreign-names")
+    # ---- 2. random histories: several user tables that reuse names (of the shipped tables and of each other)
+    pool = reuse + ["My Solid", "Octahedron", "Icosahedron", "A01", "O22", "Square Antiprism", "Snub Disphenoid"]
+    for _ in range(ctx.budget(2, 12)):
+        specs = []
+        for _ in range(int(rng.integers(1, 4))):
+            spec, used = [], set()
+            for _ in range(int(rng.integers(2, 7))):
+                nm = pool[int(rng.integers(0, len(pool)))]
+                if nm in used:
+                    continue
+                used.add(nm)
+                st, sn = pick_src()
+                spec.append([nm, st, sn, float(rng.choice([0.5, 2.0, 3.0]))])
+            specs.append(spec)
+        world_names = names_of + [[r[0] for r in sp] for sp in specs]
+        steps = []
+        for _ in range(int(rng.integers(30, 80))):
+            i = int(rng.integers(0, len(world_names)))
+            if i < nfam and rng.random() < 0.5:
+                i = nfam + int(rng.integers(0, len(specs)))
+            x = rng.random()
+            if x < 0.30 and world_names[i]:
+                steps.append(["get", i, world_names[i][int(rng.integers(0, len(world_names[i])))]])
+            elif x < 0.45 and world_names[i]:
+                steps.append(["getmut", i, world_names[i][int(rng.integers(0, len(world_names[i])))]])
+            elif x < 0.85:
+                j = int(rng.integers(0, len(world_names)))
+                src = world_names[j] if world_names[j] else pool
+                steps.append(["get", i, src[int(rng.integers(0, len(src)))]])
+            elif x < 0.92 and len(world_names[i]) <= 16:
+                steps.append(["iter", i])
+            else:
+                steps.append(["get", i, "".join(chr(int(c)) for c in rng.integers(32, 127, size=int(rng.integers(1, 9))))])
+        check_history(ctx, fams, tables_json, specs, steps, "random-user-tables")
+
+
 # ------------------------------------------------------------------------------------------ run / replay
 
 
@@ -1051,6 +1586,7 @@ def run(ctx):
                              "%s has no entry %r" % (CLASS_NAME[lean_id], tname),
                              {"table": lean_id, "name": tname, "kind": "family"}, tname)
         unknown_name_probes(ctx, fams, lean_id)
+    history_sessions(ctx, fams, tables_json, entries)
     doi_probes(ctx)
     synthetic_family(ctx)
     mutant_certificates(ctx, entries, tables_json)
@@ -1077,6 +1613,9 @@ def replay(ctx, payload):
         if kind == "family" and case.get("name") in list(fams[case["table"]].names):
             eval_entry(ctx, tables_json, entries, fams, case["table"], case["name"])
         unknown_name_probes(ctx, fams, case["table"])
+    elif kind == "history" and isinstance(case.get("steps"), list):
+        check_history(ctx, fams, tables_json, case.get("user", []), case["steps"], case.get("label", "replay"),
+                      minimise=False)
     elif kind == "doi":
         ctx.case(case)
         doi_probes(ctx)
@@ -1087,3 +1626,21 @@ def replay(ctx, payload):
         compare_lean_float(ctx, case, lean, fl, near, what="c18.check(mutant)")
     else:
         run(ctx)
+
+
+def _history_main(path):
+    """fresh-interpreter runner used to confirm a minimised history: prints the JSON list of signatures it shows"""
+    payload = json.load(open(path))
+    fams = _families()
+    tables_json, _ = read_json_tables()
+    for lean_id in list(tables_json):
+        tables_json[lean_id + ":dict"] = dict(tables_json[lean_id])
+    world = HWorld(fams, tables_json, payload.get("user", []))
+    _, problems = run_history(world, payload["steps"])
+    print(json.dumps(sorted(set(p[0] for p in problems))))
+
+
+if __name__ == "__main__":
+    import sys
+    if len(sys.argv) == 3 and sys.argv[1] == "--history":
+        _history_main(sys.argv[2])
